@@ -158,7 +158,7 @@ func runC12(c *Ctx) {
 								continue
 							}
 							g := call.Common().StaticCallee()
-							if g == nil || core.FuncPkgPath(g) != v2pkg || isTraceFn(g) {
+							if g == nil || core.FuncPkgPath(g) != v2pkg || isTraceFn(g) || onlyTraces(g) {
 								continue
 							}
 							takes := false
@@ -770,4 +770,41 @@ func splitOperand(v ssa.Value) (ssa.Value, bool) {
 		}
 	}
 	return nil, false
+}
+
+// onlyTraces: a helper that does nothing but call the trace configuration (a wrapper around c.tc.trace): no store, no map
+// update, and every call it makes is a method of TraceConfiguration.
+func onlyTraces(g *ssa.Function) bool {
+	if g == nil || len(g.Blocks) == 0 {
+		return false
+	}
+	n := 0
+	for _, b := range g.Blocks {
+		for _, in := range b.Instrs {
+			switch x := in.(type) {
+			case *ssa.MapUpdate, *ssa.Send, *ssa.Go, *ssa.Defer:
+				return false
+			case *ssa.Store:
+				if _, local := x.Addr.(*ssa.Alloc); !local {
+					if ia, isIA := x.Addr.(*ssa.IndexAddr); !isIA || !isLocalArray(ia.X) {
+						return false
+					}
+				}
+			case ssa.CallInstruction:
+				if _, isB := x.Common().Value.(*ssa.Builtin); isB {
+					continue
+				}
+				if !isTraceFn(x.Common().StaticCallee()) {
+					return false
+				}
+				n++
+			}
+		}
+	}
+	return n > 0
+}
+
+func isLocalArray(v ssa.Value) bool {
+	al, ok := v.(*ssa.Alloc)
+	return ok && !al.Heap || ok
 }
